@@ -118,6 +118,24 @@ theorem C10_match_score_rule (mat : List Int) (thr : Int) (a : KAlph) (bucketed 
   C10_match_exact _ a bucketed nb items qk qm hbk
     (fun hb q _ q' hq' => by rw [hd hb]; exact scoreSim_lt a mat thr q q' hq') i r j
 
+/-- **`KmerAlphabet.__eq__`** as written decides structural equality — same base alphabet, `k` and
+spacing model (a contiguous alphabet never equals a spaced one) — and is therefore symmetric; this is
+the test `from_tables` / `match_table` use to refuse tables over different k-mer alphabets. -/
+theorem C10_alphabet_eq (a b : KAlph) :
+    (kalphEq a b = true ↔ a = b) ∧ kalphEq a b = kalphEq b a := by
+  refine ⟨kalphEq_iff a b, ?_⟩
+  rw [Bool.eq_iff_iff, kalphEq_iff, kalphEq_iff]
+  exact ⟨fun h => h.symm, fun h => h.symm⟩
+
+/-- **Alphabet guard of `match`**: a result is only ever produced for a query whose alphabet the
+table's base alphabet extends (a prefix alphabet of at most `n` symbols); a query over another
+alphabet is refused even when all its symbol codes are in range, and for an accepted query the
+result is the one `C10_match_exact` describes. -/
+theorem C10_match_alphabet_guard (t : Table) (qa : QAlph) (seq : List Nat) (mask : Option (List Bool))
+    (l : List (Nat × Nat × Nat)) (h : matchSeqQ t qa seq mask = .ok l) :
+    qa.extendedBy t.alph.n = true ∧ matchSeq t seq mask = .ok l :=
+  matchSeqQ_ok t qa seq mask l h
+
 /-- The scan for one k-mer returns exactly the stored entries with that k-mer, with multiplicity
 and in insertion order — for the direct table and for every bucket number. -/
 theorem C10_lookup (a : KAlph) (bucketed : Bool) (nb : Nat) (items : List Entry) (q : Nat)
@@ -412,24 +430,29 @@ recursion the `while pos != -1` loop performs): with any per-symbol bound `maxS`
 matrix rows — the pruning bound — the search returns exactly the symbol strings of length `k` over
 the alphabet whose total substitution score with the query k-mer reaches the threshold; nothing is
 pruned wrongly and nothing below the threshold is kept. -/
-theorem C10_similar_kmers (n : Nat) (mat : List Int) (maxS : Nat → Int) (thr : Int)
-    (hb : ∀ x y, y < n → mat[x * n + y]?.getD 0 ≤ maxS x)
+theorem C10_similar_kmers (n m : Nat) (mat : List Int) (maxS : Nat → Int) (thr : Int)
+    (hb : ∀ x y, y < n → mat[x * m + y]?.getD 0 ≤ maxS x)
     (qs : List Nat) (hq : qs ≠ []) (ds : List Nat) :
-    ds ∈ bbSearch n mat maxS thr qs 0 ↔
-      ds.length = qs.length ∧ (∀ d ∈ ds, d < n) ∧ pairScore n mat qs ds ≥ thr := by
-  have := bbSearch_spec n mat maxS thr hb qs 0 ds (fun h => absurd h hq)
+    ds ∈ bbSearch n m mat maxS thr qs 0 ↔
+      ds.length = qs.length ∧ (∀ d ∈ ds, d < n) ∧ pairScore m mat qs ds ≥ thr := by
+  have := bbSearch_spec n m mat maxS thr hb qs 0 ds (fun h => absurd h hq)
   simpa using this
 
-/-- the bound the code uses, `max_scores = np.max(matrix, axis=-1)`, is such a bound; `similar_kmers`
-of a k-mer code splits it into `k` symbols first. -/
-theorem C10_similar_kmers_rowmax (a : KAlph) (hk : 1 ≤ a.k) (mat : List Int) (thr : Int) (q : Nat) (ds : List Nat) :
-    ds ∈ bbSearch a.n mat (rowMax a.n mat) thr (splitCode a.n a.k q) 0 ↔
-      ds.length = a.k ∧ (∀ d ∈ ds, d < a.n) ∧ pairScore a.n mat (splitCode a.n a.k q) ds ≥ thr := by
+/-- the bound the code uses, `max_scores = np.max(matrix, axis=-1)` over the whole `m`-symbol matrix
+row, is such a bound whenever the matrix alphabet extends the base alphabet (`n ≤ m`, the guard of
+`similar_kmers`); the candidates run over the `n` base symbols only — a matrix over a larger alphabet
+never contributes symbols outside the k-mer alphabet. -/
+theorem C10_similar_kmers_rowmax (a : KAlph) (hk : 1 ≤ a.k) (mat : List Int) (hm : a.n ≤ matDim mat)
+    (thr : Int) (q : Nat) (ds : List Nat) :
+    ds ∈ bbSearch a.n (matDim mat) mat (rowMax (matDim mat) mat) thr (splitCode a.n a.k q) 0 ↔
+      ds.length = a.k ∧ (∀ d ∈ ds, d < a.n) ∧
+        pairScore (matDim mat) mat (splitCode a.n a.k q) ds ≥ thr := by
   have hne : splitCode a.n a.k q ≠ [] := by
     intro h
     have := splitCode_length a.n a.k q
     rw [h] at this; simp at this; omega
-  rw [C10_similar_kmers a.n mat _ thr (fun x y hy => rowMax_bound a.n mat x y hy) _ hne, splitCode_length]
+  rw [C10_similar_kmers a.n (matDim mat) mat _ thr
+      (fun x y hy => rowMax_bound (matDim mat) mat x y (by omega)) _ hne, splitCode_length]
 
 /-- Syncmer filter: index `i` is selected iff the relative position of its minimum s-mer is one of
 the (normalised) offsets. -/
@@ -541,7 +564,12 @@ example : cachedSyncmerMask 2 3 2 .ident [0] = .ok [true, true, true, true, fals
 example : cachedSyncmerFromKmers 2 3 2 .ident [0] [5, 1, 7] = .ok [(1, 1), (2, 7)] := by decide
 example : tableEq (canonTable ⟨2, 2, none⟩ true 2 [⟨1, 0, 0⟩]) (canonTable ⟨2, 2, none⟩ true 2 [⟨1, 0, 1⟩]) = false := by decide
 
-example : bbSearch 2 [1, 0, 0, 1] (rowMax 2 [1, 0, 0, 1]) 1 [1, 0] 0 = [[0, 0], [1, 0], [1, 1]] := by decide
+example : bbSearch 2 2 [1, 0, 0, 1] (rowMax 2 [1, 0, 0, 1]) 1 [1, 0] 0 = [[0, 0], [1, 0], [1, 1]] := by decide
+example : bbSim ⟨2, 2, none⟩ [1, 0, 5, 0, 1, 5, 5, 5, 5] 1 2 = [0, 2, 3] ∧ matDim [1, 0, 5, 0, 1, 5, 5, 5, 5] = 3 := by decide
 example : bbSim ⟨2, 2, none⟩ [1, 0, 0, 1] 1 2 = [0, 2, 3] ∧ scoreSim ⟨2, 2, none⟩ [1, 0, 0, 1] 1 2 = [0, 2, 3] := by decide
+
+example : kalphEq ⟨2, 2, none⟩ ⟨2, 2, some [0, 2]⟩ = false ∧ kalphEq ⟨2, 2, some [0, 2]⟩ ⟨2, 2, none⟩ = false := by decide
+example : matchSeqQ (canonTable ⟨4, 2, none⟩ false 16 [⟨1, 0, 0⟩]) .foreign [0, 1, 2] none = .error .valueError ∧
+    matchSeqQ (canonTable ⟨4, 2, none⟩ false 16 [⟨1, 0, 0⟩]) (.pre 3) [0, 1, 2] none = .ok [(0, 0, 0)] := by decide
 
 end BiotiteModel.C10
